@@ -79,7 +79,7 @@ class C19(Machine):
             mats.append({"rows": rows, "label": rng.choice([None, None, "locus", "gene", "locus"])})
         foreign = {"rows": dict((l, "".join(rng.choice(syms[:2]) for _ in range(3))) for l in labs[:2]), "label": None}
         ops = ["concatenate", "concatenate", "concatenate_paths", "concatenate_streams", "extend_matrix", "extend_sequences",
-               "add_sequences", "replace_sequences", "update_sequences", "remove_sequences", "discard_sequences", "keep_sequences",
+               "add_sequences", "replace_sequences", "update_sequences", "remove_sequences", "discard_sequences", "keep_sequences", "del_row",
                "fill", "fill_taxa", "pack", "new_subset", "export_subset", "export_indices", "foreign", "self_extend"]
         steps = []
         for _ in range(rng.randint(3, 70 if tier == "thorough" else 30)):
@@ -333,6 +333,17 @@ class C19(Machine):
                 return "refused"
             rec.violation("MISSING_ERROR", {"op": "foreign:" + fop}, "%s accepted a matrix over a different taxon namespace" % fop)
             raise StopRun()
+        if op == "del_row":
+            # del matrix[key]: the key may be a Taxon, its label or its index in the namespace (all three are documented)
+            have = [l for l in labs if l in rA]
+            if not have:
+                return "skip"
+            l = have[st["a"] % len(have)]
+            t = T(l)
+            key = [t, l, list(mA.taxon_namespace).index(t)][st["b"] % 3]
+            del mA[key]
+            del rA[l]
+            return "changed"
         if op in ("remove_sequences", "discard_sequences", "keep_sequences"):
             tl = self._taxa(st, labs)
             if op == "remove_sequences":
